@@ -41,6 +41,7 @@ struct Actor {
 
 struct AParked {
     id: u64,
+    task: usize,
     site: &'static str,
     detail: u128,
     released: bool,
@@ -70,6 +71,9 @@ struct Inner {
     knobs: HashMap<&'static str, usize>,
     site_hits: BTreeMap<&'static str, u64>,
     events: Vec<(&'static str, u128)>,
+    seqs: HashMap<&'static str, u64>,
+    task_ids: Vec<String>,
+    task_hits: HashMap<(usize, &'static str), u64>,
 }
 
 pub struct SimCtrl {
@@ -126,6 +130,9 @@ impl SimCtrl {
                 knobs: HashMap::new(),
                 site_hits: BTreeMap::new(),
                 events: Vec::new(),
+                seqs: HashMap::new(),
+                task_ids: Vec::new(),
+                task_hits: HashMap::new(),
             }),
             sched_cv: Condvar::new(),
         }
@@ -149,6 +156,9 @@ impl SimCtrl {
         g.knobs = knobs.iter().copied().collect();
         g.site_hits.clear();
         g.events.clear();
+        g.seqs.clear();
+        g.task_ids.clear();
+        g.task_hits.clear();
         // drop finished / stale actors to keep the table small
         let epoch = g.epoch;
         for a in g.actors.iter_mut() {
@@ -310,7 +320,7 @@ impl SimCtrl {
             if p.epoch == g.epoch && !p.released {
                 out.push(Enabled {
                     kind: EnabledKind::Async(p.id),
-                    label: format!("task@{}", p.site),
+                    label: format!("task#{}@{}", p.task, p.site),
                     site: p.site,
                     detail: p.detail,
                     actor_kind: "task",
@@ -322,15 +332,40 @@ impl SimCtrl {
 
     /// Every parked OS actor of the current run: (kind, site, detail), enabled or not.
     pub fn parked(&self) -> Vec<(&'static str, &'static str, u128)> {
+        self.parked_idx().into_iter().map(|(k, _, s, d)| (k, s, d)).collect()
+    }
+
+    /// (kind, index within kind, site, detail) of every parked OS actor; done actors are absent.
+    pub fn parked_idx(&self) -> Vec<(&'static str, usize, &'static str, u128)> {
         let g = self.lock();
         g.actors
             .iter()
             .filter(|a| a.epoch == g.epoch)
             .filter_map(|a| match &a.state {
-                AState::Parked { site, detail, .. } => Some((a.kind, *site, *detail)),
+                AState::Parked { site, detail, .. } => Some((a.kind, a.kidx, *site, *detail)),
                 _ => None,
             })
             .collect()
+    }
+
+    /// Number of actors of `kind` that have finished in this run.
+    pub fn done_count(&self, kind: &str) -> usize {
+        let g = self.lock();
+        g.actors
+            .iter()
+            .filter(|a| a.epoch == g.epoch && a.kind == kind && matches!(a.state, AState::Done))
+            .count()
+    }
+
+    /// How often tokio task `task` arrived at async point `site` in this run.
+    pub fn task_hits(&self, task: usize, site: &'static str) -> u64 {
+        self.lock().task_hits.get(&(task, site)).copied().unwrap_or(0)
+    }
+
+    /// Parked async points of the current run: (task index, site, detail).
+    pub fn aparked(&self) -> Vec<(usize, &'static str, u128)> {
+        let g = self.lock();
+        g.aparked.iter().filter(|p| p.epoch == g.epoch).map(|p| (p.task, p.site, p.detail)).collect()
     }
 
     /// Parked-but-disabled OS actors (guard false) - for deadlock diagnostics.
@@ -402,8 +437,19 @@ impl Future for APointFuture {
                 g.next_aid += 1;
                 let epoch = g.epoch;
                 *g.site_hits.entry(self.site).or_insert(0) += 1;
+                // stable per-run identity of the tokio task: order of first appearance
+                let tid = tokio::task::try_id().map(|t| t.to_string()).unwrap_or_else(|| "?".into());
+                let task = match g.task_ids.iter().position(|t| *t == tid) {
+                    Some(i) => i,
+                    None => {
+                        g.task_ids.push(tid);
+                        g.task_ids.len() - 1
+                    }
+                };
+                *g.task_hits.entry((task, self.site)).or_insert(0) += 1;
                 g.aparked.push(AParked {
                     id,
+                    task,
                     site: self.site,
                     detail: self.detail,
                     released: false,
@@ -565,6 +611,16 @@ impl xs::verif::Controller for SimCtrl {
         } else {
             None
         }
+    }
+
+    fn seq(&self, name: &'static str) -> u64 {
+        let mut g = self.lock();
+        if !g.active {
+            return 0;
+        }
+        let c = g.seqs.entry(name).or_insert(0);
+        *c += 1;
+        *c
     }
 
     fn knob(&self, name: &'static str, default: usize) -> usize {
